@@ -67,6 +67,30 @@ def opsC19 : List (String × Handler) := [
       let (p, ts) ← numsTok N ts
       if !ts.isEmpty then throw "arity"
       return fmt (Spline.chspline N kk iv (fnOf BigF.zero p))),
+  -- c19.chsa N num den interval p0 … p_{N-1}   (grid size computed by the model: floatLen num den)
+  ("c19.chsa", fun ts => do
+      let (N, ts) ← natTok ts
+      let (num, ts) ← natTok ts
+      let (den, ts) ← natTok ts
+      let (iv, ts) ← numTok ts
+      let (p, ts) ← numsTok N ts
+      if !ts.isEmpty then throw "arity"
+      if num == 0 then throw "zero-interval"
+      return fmt (Spline.chsplineAuto N num den iv (fnOf BigF.zero p))),
+  -- c19.bsa eps num den interval extrap N poses(7N)
+  ("c19.bsa", fun ts => do
+      let (eps, ts) ← numTok ts
+      let (num, ts) ← natTok ts
+      let (den, ts) ← natTok ts
+      let (iv, ts) ← numTok ts
+      let (ex, ts) ← natTok ts
+      let (N, ts) ← natTok ts
+      let (ps, ts) ← numsTok (7 * N) ts
+      if !ts.isEmpty then throw "arity"
+      if num == 0 then throw "zero-interval"
+      match Spline.bsplineAuto eps N num den iv (ex == 1) (fnOf SE3one (se3List N ps)) with
+      | none => throw "assert"
+      | some out => return fmt (out.flatMap SE3.toList)),
   -- c19.chsidx N v  -> searchsorted index of v
   ("c19.chsidx", fun ts => do
       let (N, ts) ← natTok ts
